@@ -56,7 +56,7 @@ def state_level(run, thorough):
     metas = []
     for k in range(n):
         name = gen_name(rng)
-        where = rng.choice(['home', 'home', 'vol', 'vol_top', 'home_deep']) if rng.random() > 0.06 else rng.choice(['home_long', 'vol_long'])
+        where = rng.choice(['home', 'home', 'vol', 'vol_top', 'home_deep']) if rng.random() > 0.1 else rng.choice(['home_long', 'vol_long', 'forced', 'forced'])
         sticky = rng.random() < 0.5
         tree = [['d', '/home/u', 0o755], ['d', '/vol1', 0o755]]
         if sticky:
@@ -68,6 +68,10 @@ def state_level(run, thorough):
             parent = '/home/u/' + '/'.join(depthdirs) if depthdirs else '/home/u'
         elif where == 'vol':
             parent = '/vol1/' + '/'.join(depthdirs) if depthdirs else '/vol1/sub'
+        elif where == 'forced':
+            # --force-volume /vol1 for a file that lives NEXT to the volume, in a directory whose name merely begins like it:
+            # it is not below the top directory, so its Path stays absolute
+            parent = rng.choice(['/vol1x', '/vol1x/d', '/vol10/sub', '/vol1.bak'])
         elif where in ('home_long', 'vol_long'):
             # 80-character CJK components: 1.5-1.7 kB on disk, but more than 4.3 kB once percent-escaped in Path=
             parent = ('/home/u/' if where == 'home_long' else '/vol1/') + '/'.join(['\u6f22' * 80] * rng.choice([6, 7]))
@@ -96,7 +100,7 @@ def state_level(run, thorough):
                rng.randrange(60), rng.randrange(60), rng.randrange(1000000)]
         scn = {'tree': tree, 'mounts': ['/vol1'], 'cwd': cwd, 'uid': rng.choice([0, 1000]),
                'env': {'HOME': '/home/u', 'TRASH_VOLUMES': '/:/vol1'},
-               'steps': [{'cmd': 'put', 'argv': ['--', arg], 'now': now},
+               'steps': [{'cmd': 'put', 'argv': (['--force-volume', '/vol1'] if where == 'forced' else []) + ['--', arg], 'now': now},
                          {'cmd': 'list', 'argv': []}]}
         scns.append(scn)
         metas.append({'name': name, 'parent': parent, 'full': full, 'where': where, 'sticky': sticky, 'now': now,
@@ -114,6 +118,9 @@ def state_level(run, thorough):
         uid = meta['uid']
         if meta['where'] in ('home', 'home_deep', 'home_long'):
             td, loc = '/home/u/.local/share/Trash', meta['full']
+        elif meta['where'] == 'forced':
+            td = '/vol1/.Trash/%d' % uid if meta['sticky'] else '/vol1/.Trash-%d' % uid
+            loc = meta['full']
         else:
             td = '/vol1/.Trash/%d' % uid if meta['sticky'] else '/vol1/.Trash-%d' % uid
             loc = meta['full'][len('/vol1/'):]
@@ -152,7 +159,7 @@ def state_level(run, thorough):
             ok = ok and all(c in allowed for c in pv)
             ok = ok and rfc_unescape(pv) == os.fsencode(loc)
             ok = ok and blines[2][13:].decode('ascii', 'replace') == '%04d-%02d-%02dT%02d:%02d:%02d' % tuple(meta['now'][:6])
-            ok = ok and (pv.startswith(b'/') == (meta['where'] in ('home', 'home_deep', 'home_long'))) and b'/../' not in b'/' + pv + b'/'
+            ok = ok and (pv.startswith(b'/') == (meta['where'] in ('home', 'home_deep', 'home_long', 'forced'))) and b'/../' not in b'/' + pv + b'/'
         if not ok:
             run.fail('oracle', '.trashinfo on disk is not the spec-conformant image of (location, time)',
                      dict(case, info_bytes=esc(data), expected_location=esc(loc)), key='bad-trashinfo', section='state')
